@@ -822,9 +822,13 @@ pub fn deep_child(k: usize, flat: bool) {
         }
     }
     bytes.extend_from_slice(&[0xf2, 0x01, 0x01]);
-    let h = std::thread::Builder::new().stack_size(2 * 1024 * 1024).spawn(move || melvm::covenant_weight_from_bytes(&bytes)).unwrap();
+    let h = std::thread::Builder::new().stack_size(2 * 1024 * 1024).spawn(move || {
+        let before = melvm::opcode::VERIF_WEIGH_WORK.load(Ordering::SeqCst);
+        let w = melvm::covenant_weight_from_bytes(&bytes);
+        (w, melvm::opcode::VERIF_WEIGH_WORK.load(Ordering::SeqCst) - before)
+    }).unwrap();
     match h.join() {
-        Ok(w) => println!("{}", json!({"weight": js::limbs_u128(w)})),
+        Ok((w, work)) => println!("{}", json!({"weight": js::limbs_u128(w), "work": js::limbs_u64(work)})),
         Err(_) => println!("{}", json!({"panic": true})),
     }
 }
@@ -832,17 +836,51 @@ pub fn deep_child(k: usize, flat: bool) {
 pub fn deep_record(k: usize, flat: bool) -> J {
     let exe = std::env::current_exe().unwrap();
     let t0 = std::time::Instant::now();
-    let out = std::process::Command::new(exe).args(["deepchild", "--k", &k.to_string(), "--flat", if flat { "1" } else { "0" }]).output();
-    let ms = t0.elapsed().as_millis() as u64;
-    let (status, weight) = match out {
-        Ok(o) if o.status.success() => {
-            let v: J = serde_json::from_slice(o.stdout.split(|c| *c == b'\n').next().unwrap_or(b"{}")).unwrap_or(json!({}));
-            if v.get("weight").is_some() { ("ok", v["weight"].clone()) } else { ("panic", json!([])) }
+    // the child is given 15 minutes (a hang is a verdict, not a stuck check)
+    let child = std::process::Command::new(exe).args(["deepchild", "--k", &k.to_string(), "--flat", if flat { "1" } else { "0" }])
+        .stdout(std::process::Stdio::piped()).stderr(std::process::Stdio::null()).spawn();
+    let mut status = "spawn-error";
+    let mut weight = json!([]);
+    let mut work = json!([]);
+    if let Ok(mut c) = child {
+        loop {
+            match c.try_wait() {
+                Ok(Some(st)) => {
+                    let mut buf = Vec::new();
+                    if let Some(mut o) = c.stdout.take() {
+                        use std::io::Read;
+                        let _ = o.read_to_end(&mut buf);
+                    }
+                    if st.success() {
+                        let v: J = serde_json::from_slice(buf.split(|c| *c == b'\n').next().unwrap_or(b"{}")).unwrap_or(json!({}));
+                        if v.get("weight").is_some() {
+                            status = "ok";
+                            weight = v["weight"].clone();
+                            work = v["work"].clone();
+                        } else {
+                            status = "panic";
+                        }
+                    } else {
+                        status = "abort";
+                    }
+                    break;
+                }
+                Ok(None) => {
+                    if t0.elapsed().as_secs() > 900 {
+                        let _ = c.kill();
+                        let _ = c.wait();
+                        status = "timeout";
+                        break;
+                    }
+                    std::thread::sleep(std::time::Duration::from_millis(5));
+                }
+                Err(_) => break,
+            }
         }
-        Ok(_) => ("abort", json!([])),
-        Err(_) => ("spawn-error", json!([])),
-    };
-    json!({"ev": "deep", "fam": if flat { "cost-long-flat" } else { "cost-deep-nesting" }, "k": k, "bytes": if flat { k + 3 } else { 5 * k + 3 }, "status": status, "weight": weight, "ms": ms})
+    }
+    let ms = t0.elapsed().as_millis() as u64;
+    json!({"ev": "deep", "fam": if flat { "cost-long-flat" } else { "cost-deep-nesting" }, "k": k, "bytes": if flat { k + 3 } else { 5 * k + 3 }, "status": status, "weight": weight,
+           "work": work, "ms": ms})
 }
 
 
